@@ -400,3 +400,59 @@ class ProcessStringFieldValue:
 
     def ensures(self, path, value, current_type, optional, result):
         return {"converted": conv_rel(path, value, current_type, result)}
+
+
+# --------------------------------------------------------------------------------------------- labels (C03, C11)
+@assumed("unidecode", props=["C03", "C11"])
+class Unidecode:
+    """unidecode(s): an ASCII transliteration (text otherwise opaque)"""
+    sorts = {"a0": "str", "result": "str"}
+
+
+@assumed("re.sub", props=["C03", "C11"])
+class ReSubNonWord:
+    r"""re.sub(r"\W", "", s): s without its non-word characters; what remains consists of word characters only"""
+    sorts = {"a0": "str", "a1": "str", "a2": "str", "result": "str"}
+
+    def ensures(self, a0, a1, a2, result):
+        return {"only_word_chars_remain": implies(a0 == "\\W" and a1 == "", word_only(result) and len(result) <= len(a2))}
+
+
+@assumed("inflection.underscore", props=["C03", "C11"])
+class InflectionUnderscore:
+    """inflection.underscore(s): snake-cases an identifier-like string: word characters stay word characters, the result is non-empty
+    when the argument is, and it starts with a digit only if the argument does"""
+    sorts = {"a0": "str", "result": "str"}
+
+    def ensures(self, a0, result):
+        return {"word_chars": implies(word_only(a0), word_only(result)), "non_empty": implies(len(a0) > 0, len(result) > 0),
+                "digit_start_only_if_arg": implies(digit_start(result), digit_start(a0))}
+
+
+@assumed("str.lower", props=[])
+class StrLower:
+    sorts = {"a0": "str", "result": "str"}
+
+    def ensures(self, a0, result):
+        return {"same_length": len(result) == len(a0),
+                "digits_are_their_own_lowercase": implies(len(a0) == 1 and "0" <= a0 and a0 <= "9", result == a0)}
+
+
+@contract("json_to_models/models/base.py::prepare_label", props=["C03", "C11"], no_merge=True)
+class PrepareLabel:
+    """C03/C11: a label is made of word characters only, is non-empty, does not start with an ASCII digit and is never a keyword,
+    builtin or other blacklisted name - for field names and for class names alike."""
+    sorts = {"s": "str", "convert_unicode": "bool", "to_snake_case": "bool", "result": "str", "blacklist_words": "set"}
+
+    def requires(self, s, convert_unicode, to_snake_case):
+        cleaned = ext("re.sub", "\\W", "", ext("unidecode", s) if convert_unicode else s)
+        return {"something_left_after_cleaning": len(cleaned) > 0,
+                "suffix_escapes_blacklist": forall(blacklist_words, lambda w: not (box_str(sval(w) + "_") in blacklist_words))}
+
+    def ensures(self, s, convert_unicode, to_snake_case, result):
+        return {
+            "non_empty": len(result) > 0,
+            "word_characters_only": word_only(result),
+            "no_leading_ascii_digit": not digit_start(result),
+            "never_blacklisted": not (box_str(result) in blacklist_words),
+        }
